@@ -1211,6 +1211,64 @@ func (g *genCtx) bursts(transports []transportSpec, rounds int) []*History {
 		h.Steps = append(h.Steps, Step{Op: "par", Par: par}, Step{S: 0, Op: "sync", Re: true})
 		hs = append(hs, h)
 
+		// session details: one session keeps changing the details of a victim
+		// subscriber (and of a caller / publisher) through
+		// wamp.session.modify_details while others publish with attribute
+		// filters to a topic the victim holds, call a procedure registered
+		// with disclose_caller, publish with disclose_me and run the session
+		// meta procedures that read details.  Every reader must hold the lock
+		// of the session it reads; the race detector sees it when one does not.
+		h = &History{Name: fmt.Sprintf("burst/%s/details-race", t), Stream: "burst"}
+		for i := 0; i < 5; i++ {
+			sp := t.spec()
+			if i == 4 {
+				sp.Roles = "all+yield"
+			}
+			h.Sessions = append(h.Sessions, sp)
+			h.Steps = append(h.Steps, stepAttach(i))
+		}
+		h.Steps = append(h.Steps,
+			stepMsg(0, "", mk(32, vID(1), vDict(), vURI("dr.topic"))),
+			stepMsg(0, "", mk(32, vID(2), vDict("match", vStr("prefix")), vURI("dr."))),
+			stepMsg(3, "", mk(32, vID(1), vDict(), vURI("dr.topic"))),
+			stepMsg(4, "", mk(64, vID(1), vDict("disclose_caller", vBool(true)), vURI("dr.proc"))),
+			stepSync(0), stepSync(3), stepSync(4))
+		par = nil
+		filters := []V{
+			vDict("eligible_authrole", vList(vStr("anonymous"), vStr("x"))),
+			vDict("exclude_authid", vList(vStr("nobody"))),
+			vDict("exclude", vList(vRef("sid:3")), "eligible_authrole", vList(vStr("anonymous"))),
+			vDict("eligible_color", vList(vStr("1"), vStr("2"))),
+			vDict("exclude_authrole", vList(vStr("nobody")), "disclose_me", vBool(true)),
+		}
+		dr := rounds * 2
+		for r := 0; r < dr; r++ {
+			victim := []string{"sid:0", "sid:0", "sid:3", "sid:1"}[r%4]
+			par = append(par,
+				Step{S: 1, Op: "msg", Note: "details-race/publish-with-attribute-filter", M: mk(16, vRef("req"), filters[r%len(filters)], vURI("dr.topic"), vList(vInt(r)))},
+				Step{S: 2, Op: "msg", Note: "details-race/modify_details", M: mk(48, vRef("req"), vDict(), vURI("wamp.session.modify_details"),
+					vList(vRef(victim), vDict("color", vStr(fmt.Sprint(r%3)), "authrole", vStr("anonymous"), "authid", vStr(fmt.Sprintf("a%d", r%3)), "foo", vNil())))})
+			switch r % 6 {
+			case 0:
+				par = append(par, Step{S: 3, Op: "msg", Note: "details-race/session.list", M: mk(48, vRef("req"), vDict(), vURI("wamp.session.list"), vList(vList(vStr("anonymous"))))})
+			case 1:
+				par = append(par, Step{S: 3, Op: "msg", Note: "details-race/session.get", M: mk(48, vRef("req"), vDict(), vURI("wamp.session.get"), vList(vRef("sid:0")))})
+			case 2:
+				par = append(par, Step{S: 3, Op: "msg", Note: "details-race/call-disclosed", M: mk(48, vRef("req"), vDict(), vURI("dr.proc"), vList(vInt(r)))})
+			case 3:
+				par = append(par, Step{S: 3, Op: "msg", Note: "details-race/kill_by_authid", M: mk(48, vRef("req"), vDict(), vURI("wamp.session.kill_by_authid"), vList(vStr("nobody")))})
+			case 4:
+				par = append(par, Step{S: 3, Op: "msg", Note: "details-race/session.count", M: mk(48, vRef("req"), vDict(), vURI("wamp.session.count"), vList(vList(vStr("anonymous"))))})
+			case 5:
+				par = append(par, Step{S: 3, Op: "msg", Note: "details-race/publish-disclose", M: mk(16, vRef("req"), vDict("disclose_me", vBool(true)), vURI("dr.x"), vList(vInt(r)))})
+			}
+		}
+		h.Steps = append(h.Steps, Step{Op: "par", Par: par})
+		for i := 0; i < 5; i++ {
+			h.Steps = append(h.Steps, stepSync(i))
+		}
+		hs = append(hs, h)
+
 		// a realm is removed (and added again) by the application while its
 		// sessions publish, call and hold pending invocations: the peers of
 		// those sessions are closed by the shutdown path
